@@ -179,12 +179,12 @@ func (c *Ctx) finish() *Report {
 
 // Monitor is the per-property machinery.
 type Monitor struct {
-	ID          string
-	Level       string // exploration | fault_enumeration
-	Race        bool   // workers use the -race build
+	ID    string
+	Level string // exploration | fault_enumeration
+	Race  bool   // workers use the -race build
 	// RaceKinds, if set, splits the work: cases of these kinds run in workers of the -race build,
 	// all others in the plain build.
-	RaceKinds map[string]bool
+	RaceKinds   map[string]bool
 	Rule        string
 	Technique   string
 	Assumptions []string
@@ -206,7 +206,7 @@ type Monitor struct {
 
 var registry = map[string]*Monitor{}
 
-func Register(m *Monitor) { registry[m.ID] = m }
+func Register(m *Monitor)    { registry[m.ID] = m }
 func Get(id string) *Monitor { return registry[id] }
 func IDs() []string {
 	var ids []string
